@@ -7,7 +7,9 @@
 (*   alloc                it allocated > 1 MiB + 4x the input               *)
 (*   accept-noncanonical  accepted, the model (= Canonical, by TLC) rejects *)
 (*   reject-canonical     rejected a canonical stream                       *)
-(*   errclass             rejected for another reason than the model        *)
+(*   errclass             rejected, but for another reason than the model:  *)
+(*                        NOT a deviation (the property fixes acceptance,   *)
+(*                        not the order of the checks) - noted in note.txt  *)
 (*   values / typemap / reencode   accepted, but the decoded known records, *)
 (*                        the TypeMap keys, or decode-then-encode differ    *)
 (* Deviations are classified (entry point, kind, input class) and written   *)
@@ -43,7 +45,7 @@ Kinds(r, M, api) ==
   (IF r.p = 1 THEN {}
    ELSE IF r.o = 1 /\ M.st = "rej" THEN {"accept-noncanonical"}
    ELSE IF r.o = 0 /\ M.st = "acc" THEN {"reject-canonical"}
-   ELSE IF r.o = 0 THEN (IF r.e # M.err THEN {"errclass"} ELSE {})
+   ELSE IF r.o = 0 THEN {}
    ELSE (IF r.k # <<KnownVal(M, <<1>>), KnownVal(M, <<2>>), KnownVal(M, <<3>>)>> THEN {"values"} ELSE {})
         \cup (IF r.t # (IF WithMap(api) THEN [i \in 1..Len(M.out) |-> M.out[i].t] ELSE <<>>)
                 THEN {"typemap"} ELSE {})
@@ -54,6 +56,13 @@ Devs(line, Mn, Mp) ==
             k \in Kinds(line.r[api], IF P2PApi(api) THEN Mp ELSE Mn, api)} : api \in Apis}
 
 Report(ds, line) == \A d \in ds : CSVWrite("%1$s %2$s %3$s %4$s", <<d[1], d[2], d[3], line>>, "dev.txt")
+
+\* both reject, different error class
+Notes(line, Mn, Mp) ==
+  {<<api, line.r[api].e, (IF P2PApi(api) THEN Mp ELSE Mn).err>> :
+     api \in {a \in Apis : LET r == line.r[a] M == IF P2PApi(a) THEN Mp ELSE Mn IN
+                             r.s = 0 /\ r.p = 0 /\ r.o = 0 /\ M.st = "rej" /\ r.e # M.err}}
+Note(ns, line) == \A d \in ns : CSVWrite("%1$s %2$s %3$s %4$s", <<d[1], d[2], d[3], line>>, "note.txt")
 
 TInit == /\ TLCSet(1, 0)
          /\ m = RunToEnd(Machine(<<>>, TRUE, FALSE)) /\ mp = RunToEnd(Machine(<<>>, TRUE, TRUE))
@@ -66,6 +75,7 @@ Case == /\ l <= Len(Trace) /\ Trace[l].a = "Case"
                ds == Devs(Trace[l], Mn, Mp) IN
            /\ fed' = inp /\ m' = Mn /\ mp' = Mp
            /\ Report(ds, l)
+           /\ Note(Notes(Trace[l], Mn, Mp), l)
            /\ ndev' = ndev + Cardinality(ds)
            /\ TLCSet(1, ndev + Cardinality(ds))
         /\ l' = l + 1
